@@ -22,6 +22,11 @@ from engine import Ob, mkkey
 
 RESULT_RE = re.compile(r"^(core::option::Option<)?core::result::Result<")
 
+PURE_ERRORS = ("core::num::error::TryFromIntError", "core::num::TryFromIntError", "std::time::SystemTimeError",
+               "std::thread::local::AccessError", "std::thread::AccessError", "core::convert::Infallible",
+               "core::array::TryFromSliceError", "core::char::TryFromCharError", "core::char::CharTryFromError",
+               "core::alloc::layout::LayoutError", "alloc::collections::TryReserveError")
+
 OPT_RESULT_RE = re.compile(r"^core::option::Option<core::result::Result<")
 
 TRY_BRANCH = "core::ops::try_trait::Try::branch"
@@ -137,6 +142,69 @@ def _nonzero_const(o):
     return c is not None and isinstance(c.get("v"), int) and c["v"] != 0
 
 
+def _never_zero(fn, operand, depth=0):
+    """The value is the discriminant of a workspace enum none of whose variants is numbered 0
+    (`enum Failure { Usage = 2, Source = 3, .. }` ... `ExitCode::from(failure as u8)`)."""
+    l = op_local(operand)
+    fx = getattr(fn, "fx", None)
+    if l is None or fx is None or depth > 6:
+        return False
+    from cfg import whole_defs
+    ds = whole_defs(fn, l)
+    if not ds or any(d.is_term for d in ds):
+        return False
+    for d in ds:
+        rv = d.node["rv"]
+        if rv["k"] in ("use", "cast"):
+            if not _never_zero(fn, rv["op"], depth + 1):
+                return False
+        elif rv["k"] == "discr":
+            a = fx.adts.get(rv.get("adt") or "")
+            if not a or a.get("kind") != "enum" or (rv.get("adt") or "").split("::")[0] not in ("xcp", "libxcp", "libfs"):
+                return False
+            try:
+                if any(int(v.get("discr", "0")) == 0 for v in a.get("variants", [])):
+                    return False
+            except ValueError:
+                return False
+        else:
+            return False
+    return True
+
+
+def _failure_conversion(fn, t, _memo={}):
+    """`failure.into()` through a workspace `impl From<Failure> for ExitCode` every return of which is a non-zero
+    status."""
+    fx = getattr(fn, "fx", None)
+    aty = (t.get("arg_tys") or [""])[0]
+    if fx is None or aty.split("::")[0] not in ("xcp", "libxcp"):
+        return False
+    k = (id(fx), aty)
+    if k not in _memo:
+        _memo[k] = False
+        g = fx.fns.get("<std::process::ExitCode as core::convert::From<%s>>::from" % aty)
+        if g is None:
+            want = "core::convert::From<%s> for std::process::ExitCode>::from" % aty
+            cands = [x for x in fx.fns if x.endswith(want)]
+            g = fx.fns[cands[0]] if len(cands) == 1 else None
+        if g is not None:
+            try:
+                import views
+                v = views.view(fx, g.path, depth=4, threaded=False) or g
+            except Exception:
+                v = g
+            if getattr(v, "fx", None) is None:
+                try:
+                    v.fx = fx
+                except Exception:
+                    pass
+            sg = signal_blocks(v)
+            cf = cfg_of(v)
+            r = cf.reach([0], blocked=set(sg))
+            _memo[k] = bool(sg) and not any(b in r for b in cf.returns)
+    return _memo[k]
+
+
 def signal_blocks(fn, matched_locals=()):
     """Blocks that carry a failure signal."""
     cfg = cfg_of(fn)
@@ -210,8 +278,9 @@ def signal_blocks(fn, matched_locals=()):
                 sig[bi] = "`?` propagates"
             elif o in PROCESS_EXIT and t["args"] and _nonzero_const(t["args"][0]):
                 sig[bi] = "process::exit(non-zero)"
-            elif o == "core::convert::From::from" and t["dest"]["l"] in rl and "ExitCode" in (t.get("dest_ty") or "") \
-                    and t["args"] and _nonzero_const(t["args"][0]):
+            elif o in ("core::convert::From::from", "core::convert::Into::into") and t["dest"]["l"] in rl and \
+                    "ExitCode" in (t.get("dest_ty") or "") and t["args"] and \
+                    (_nonzero_const(t["args"][0]) or _never_zero(fn, t["args"][0]) or _failure_conversion(fn, t)):
                 sig[bi] = "returns a non-zero ExitCode"
             elif o == SEND and len(t["args"]) >= 2:
                 if prov is None:
@@ -842,12 +911,17 @@ def fallible_sites(fx, crates=None):
                 continue
             o = callee_orig(t) or callee_path(t) or ""
             dty = t.get("dest_ty", "")
-            if o in STATUS_INT_CALLS:
+            if o in STATUS_INT_CALLS and not RESULT_RE.match(dty):
                 yield f, bi, t, "status_int"
             elif o in OPTION_ERR_CALLS:
                 yield f, bi, t, "option_err"
             elif RESULT_RE.match(dty):
                 if dty.endswith("core::fmt::Error>"):
+                    continue
+                # errors of pure computations (a number that does not fit, a clock that went backwards, thread-local
+                # storage already torn down) are not failures of a step that produces the destination; what the
+                # caller substitutes is ordinary data flow.  (Parsing is kept: it validates user input.)
+                if dty.rstrip(">").endswith(PURE_ERRORS):
                     continue
                 # the plumbing of `?` and of combinators is not itself a fallible step
                 if o in (TRY_BRANCH, FROM_RESIDUAL):
